@@ -8,7 +8,7 @@ The lines of a frame the multiplexer accepts are in strictly ascending order of 
 -/
 namespace Zvbi.Mux
 open Zvbi.Mux.EnParse Zvbi.Hamm
-open Zvbi.Demux (AscFrom lastLineOf firstLine SepFrom LinesOK FrameOut ofLine)
+open Zvbi.Demux (AscFrom lastLineOf firstLine SepFrom FrameLinesOK FrameOut ofLine)
 
 theorem canon_line (s : Sliced) (l : Line) (h : canon s = some l) : l.line = s.line := by
   unfold canon at h
@@ -164,9 +164,25 @@ def Separable : List Sent → Prop
   | [s] => Defined s
   | s :: t :: r => Defined s ∧ firstLine t.lines ≤ lastLineOf 0 s.lines ∧ Separable (t :: r)
 
+theorem separable_defined : ∀ (ss : List Sent), Separable ss → ∀ s ∈ ss, Defined s := by
+  intro ss
+  induction ss with
+  | nil => intro _ s hs; simp at hs
+  | cons a ss ih =>
+    intro hsep s hs
+    cases ss with
+    | nil =>
+      simp only [List.mem_singleton] at hs
+      subst hs; exact hsep
+    | cons b r =>
+      obtain ⟨hd, _, hsep'⟩ := hsep
+      rcases List.mem_cons.mp hs with rfl | hs
+      · exact hd
+      · exact ih hsep' s hs
+
 theorem sepFrom_of_separable : ∀ (ss : List Sent) (s : Sent),
     (∀ t ∈ s :: ss, (∀ l ∈ t.lines, l.line ≠ 0) → AscFrom 0 t.lines ∧ t.lines.length ≤ 39) →
-    Separable (s :: ss) → LinesOK s.lines ∧ SepFrom (lastLineOf 0 s.lines) (ss.map (·.lines)) := by
+    Separable (s :: ss) → FrameLinesOK s.lines ∧ SepFrom (lastLineOf 0 s.lines) (ss.map (·.lines)) := by
   intro ss
   induction ss with
   | nil =>
